@@ -158,10 +158,12 @@ package threshold
 //@   loop 0: invariant len(res) == len(in) && forall i int :: 0 <= i && i <= rangeindex ==> uint16(res[i]) == in[i]
 //@
 //@ func (*Scheme).prepareSigning
-//@   props C02 C03 C12
-//@   requires membership != nil
+//@   props C02 C03 C06 C12
+//@   requires membership != nil && known(membership, signers)
 //@   on-call s.RBF(bc, fw, cnt):
 //@     assert [session-size] cnt == len(signers)
+//@   on-call (*Scheme).initializeThresholdSigning(ss, mm, ps, th, sg):
+//@     assert [session-lists] same(ps, parties) && same(sg, signers) && mm == membership
 //@   at store complit.allowedList:
 //@     assert [participants] keys(value$) == elems(signers, len(signers))
 //@
@@ -169,8 +171,12 @@ package threshold
 //@ func (*Scheme).runDKG$1
 //@   props C02 C03 C12
 //@   requires s != nil && membership != nil && dkgProtocolInstance != nil && len(members) == n
+//@   requires [configured] forall i int :: 0 <= i && i < len(members) ==> UniversalID(members[i]) in membership.uID2PID
 //@   on-call s.RBF(bc, fw, cnt):
 //@     assert [session-size] cnt == len(members)
+//@   on-call (*Scheme).initializeDKG(ss, dk, tt, mem, ps, mm):
+//@     assert [session-members] len(mem) == len(members) && forall i int :: 0 <= i && i < len(members) ==> uint16(mem[i]) == members[i]
+//@     assert [session-parties] same(ps, parties) && mm == membership && dk == dkgProtocolInstance
 //@   at store complit.allowedList:
 //@     assert [participants] keys(value$) == elems(universalIds, len(universalIds)) && len(universalIds) == len(members)
 
@@ -275,3 +281,12 @@ package threshold
 //@   modifies nothing
 //@   ensures [excluded] forall i int :: 0 <= i && i < len(result) ==> result[i] != x
 //@   loop 0: invariant forall i int :: 0 <= i && i < len(res) ==> res[i] != x
+
+//@ // the continuation of the first signing synchronisation: what it hands to prepareSigning
+//@ func (*Scheme).Sign$2
+//@   props C06 C11 C12
+//@   requires s != nil && membership != nil
+//@   requires [configured] forall i int :: 0 <= i && i < len(signers) ==> UniversalID(signers[i]) in membership.uID2PID
+//@   on-call (*Scheme).prepareSigning(ss, mm, ps, th, sg):
+//@     assert [session-members] len(sg) == len(signers) && forall i int :: 0 <= i && i < len(signers) ==> uint16(sg[i]) == signers[i]
+//@     assert [session-parties] same(ps, partyIDs) && mm == membership
